@@ -41,7 +41,7 @@ fn concretise(s: &Value, codes: &Codes, r: &mut Rng) -> (String, Vec<u8>, Vec<u8
         let mut bytes = key.clone();
         bytes.extend(&prog);
         let code = if s["code"] == "blech" { &codes.blech } else { &codes.bech };
-        let mut text = segwit_string(code, s["hrp"].as_str().unwrap(), s["ver"].as_u64().unwrap() as u8, &bytes, s["variant"].as_str().unwrap());
+        let mut text = crate::enc::segwit_string_pad(code, s["hrp"].as_str().unwrap(), s["ver"].as_u64().unwrap() as u8, &bytes, s["variant"].as_str().unwrap(), s["pad"].as_u64().unwrap_or(0) as usize);
         match s["case"].as_str().unwrap() {
             "upper" => text = text.to_uppercase(),
             "mixed" => {
@@ -63,7 +63,8 @@ fn sclass(s: &Value) -> String {
     if s["kind"] == "b58" {
         format!("b58/outer{}/inner{}/key{}/hash{}/{}", s["outer"], s["inner"], s["keylen"], s["hashlen"], s["cksum"].as_str().unwrap())
     } else {
-        format!("seg/{}/{}/v{}/key{}/prog{}/{}-{}", s["hrp"].as_str().unwrap(), s["case"].as_str().unwrap(), s["ver"], s["keylen"], s["plen"], s["code"].as_str().unwrap(), s["variant"].as_str().unwrap())
+        format!("seg/{}/{}/v{}/key{}/prog{}/{}-{}{}", s["hrp"].as_str().unwrap(), s["case"].as_str().unwrap(), s["ver"], s["keylen"], s["plen"], s["code"].as_str().unwrap(), s["variant"].as_str().unwrap(),
+                if s["pad"].as_u64().unwrap_or(0) > 0 { format!("/padbit{}", s["pad"]) } else { String::new() })
     }
 }
 
